@@ -219,6 +219,17 @@ func (tw *TumblingWindow) Add(data any) {
 		}
 	}
 
+	// An on-time event may precede the first event seen (out-of-order arrival
+	// within MaxOutOfOrderness). The current slot only ever moves forward, so a
+	// row before its start would be buffered forever and never emitted. Nothing
+	// can have fired yet in that case (a fired or skipped slot ends at or before
+	// the watermark, and an on-time event is not before the watermark), so move
+	// the not-yet-fired current slot back to the event's own aligned window.
+	if timeChar == types.EventTime && tw.currentSlot != nil && eventTime.Before(*tw.currentSlot.Start) &&
+		(tw.watermark == nil || !tw.watermark.IsEventTimeLate(eventTime)) {
+		tw.currentSlot = tw.createSlotFromStart(alignWindowStart(eventTime, tw.size))
+	}
+
 	row := types.Row{
 		Data:      data,
 		Timestamp: eventTime,
